@@ -41,10 +41,12 @@ CHECKS = {
         'and for dimension jumps with model priors p, 1-p and the coded balancing density; a zero-likelihood proposal has acceptance 0, a '
         'zero-likelihood start accepts with probability 1; the strict decision u < a never accepts a=0 and always accepts a=1. Tie: '
         'transition_pdf, prior, jump_params, acceptance (4 classes, 1..3 events) and _acceptance_check with a forced uniform draw vs the '
-        'executable model; oracle = both sides of the balance identity on the real code. Open finding: the coded balancing density is not '
-        'normalised over the source-type box (KNOWN_FINDINGS).',
+        'executable model; oracle = both sides of the balance identity on the real code. Props/C05Jump: the coded proposal_normalisation is the mass of the '
+        'two normals on the lune ranges, hence the coded jump density is the product of the truncated-normal densities that Props/C06Law proves for the '
+        'balancing draw, each integrating to one (true since fix d6bce07; formerly an open finding); the harness replays the balancing draw and compares '
+        'its scaling with the widths of the density.',
    note=TB + 'The strike kernel (wrapped normal) is symmetric and omitted as in the code. scipy norm/beta densities are modelled by closed forms (checked each run). '
-        'That jump_params(x) equals the density of the actual draw is NOT proved (and numerically false by 2%: open finding).',
+        'That jump_params(x) is the density of the actual draw is proved per coordinate (C05Jump + C06Law); the joint law as a product is not stated.',
    technique='Lean 4 proof (min-ratio swap lemma, positivity of truncated Gaussians via strict monotonicity of erf) + differential correspondence',
    design='5/C05'),
  'C06': dict(
